@@ -26,6 +26,8 @@ EXPLANATION = (
     "extending (R04.4), distance 0 exactly under the overlap test and before any arithmetic (R04.5), and "
     "order-independent hull extremes - min over starts / max over ends instead of positional indexing into "
     "strand-ordered part lists (R04.6)."
+    " R04.9: remove_redundant_exons puts the exons it keeps back in their original order by identity or position - "
+    "parts are equal by value, so membership in the kept list also holds for a duplicate that was found redundant."
 )
 UNDECIDED = [
     "distance values on line and ring; shortest-arc choice of connect_locations",
@@ -650,7 +652,33 @@ def r04_8(ctx: Ctx) -> None:
         raise AnalysisError(f"{qual}: the loop merging abutting parts was not found")
 
 
+def r04_9(ctx: Ctx) -> None:
+    """ remove_redundant_exons decides per exon whether a larger kept exon covers it, then puts the kept ones back into
+        their original order.  Location parts compare equal by value, so re-selecting "the parts that are in the kept
+        list" by `in` also re-selects an exact duplicate that had just been found redundant: the result then has two
+        identical, overlapping parts.  The re-selection has to go by identity or by position. """
+    qual = "remove_redundant_exons"
+    func = ctx.fn(LOC, qual)
+    kept = {txt(c.func.value) for c in calls(func) if isinstance(c.func, ast.Attribute) and c.func.attr == "append"
+            and isinstance(c.func.value, ast.Name) and len(c.args) == 1 and isinstance(c.args[0], ast.Name)}
+    builds = [c for c in calls(func) if call_name(c) == "CompoundLocation" and c.args]
+    if not kept or not builds:
+        raise AnalysisError(f"{qual}: the list of kept exons or the location built from it was not found")
+    by_value = [n for n in walk_local(func) if isinstance(n, ast.Compare) and len(n.ops) == 1
+                and isinstance(n.ops[0], (ast.In, ast.NotIn)) and isinstance(n.comparators[0], ast.Name)
+                and n.comparators[0].id in kept and isinstance(n.left, ast.Name)]
+    for build in builds:
+        ok = not by_value
+        ctx.ob("R04.9", LOC, by_value[0] if by_value else build, qual, "kept exons re-selected by identity or position", ok,
+               "the exons found non-redundant are put back in their original order by identity or position (parts are equal by "
+               "value: membership in the kept list also holds for a duplicate that was found redundant)",
+               detail="" if ok else f"`{txt(by_value[0])}` - join{{[0:10),[0:10),[20:30)}} keeps both copies of [0:10), two overlapping parts",
+               form=txt(build.args[0])[:100])
+
+
 def run(ctx: Ctx) -> None:
+    ctx.rule("R04.9", "redundant-exon removal re-selects the kept exons by identity, not by value", floor=1)
+    r04_9(ctx)
     ctx.rule("R04.8", "parts abutting after a shift are merged with the last merged part", floor=1)
     r04_8(ctx)
     ctx.rule("R04.1", "overlap / containment base cases agree with the set-of-bases model", floor=2)
